@@ -306,15 +306,20 @@ def custom(ctx):
     # ---- 2. stress: every shared component, race mode (no harness synchronisation) and linearizability mode
     g = "8" if not thorough else "16"
     plan = []
-    plan.append(("pubkeyfork", "stress-race", ["-g", g, "-iters", "20000" if not thorough else "200000", "-seed", str(seed), "-timeout", "5000" if not thorough else "15000"]))
+    # every stress phase has a TIME budget (conc -budget): when it is reached the workers stop issuing calls, join and
+    # report what they covered. Iteration counts are upper bounds for an idle machine.
+    race_budget, lin_budget = ("20000", "20000") if not thorough else ("60000", "45000")
+    wd = "5000" if not thorough else "15000"
+    plan.append(("pubkeyfork", "stress-race", ["-g", g, "-iters", "20000" if not thorough else "200000", "-seed", str(seed), "-timeout", wd, "-budget", race_budget]))
     for comp in ("pools", "pubkey", "fc"):
         it = ("10000" if not thorough else "100000") if comp == "pools" else ("20000" if not thorough else "200000")
-        plan.append((comp, "stress-race", ["-g", g, "-iters", it, "-seed", str(seed), "-timeout", "5000" if not thorough else "15000"]))
-        plan.append((comp, "stress-lin", ["-g", g, "-iters", "2880" if not thorough else "28800", "-timeout", "5000" if not thorough else "15000"]))
+        plan.append((comp, "stress-race", ["-g", g, "-iters", it, "-seed", str(seed), "-timeout", wd, "-budget", race_budget]))
+        plan.append((comp, "stress-lin", ["-g", g, "-iters", "2880" if not thorough else "28800", "-timeout", wd, "-budget", lin_budget]))
     calls = 0
     stats_all = {}
     for comp, cmd, extra in plan:
-        r = run_conc([cmd, comp] + extra, work, f"{cmd}-{comp}", 300 if not thorough else 1800)
+        # the outer timeout is only a last resort far above budget + watchdog; hitting it is reported as a note, never as a finding
+        r = run_conc([cmd, comp] + extra, work, f"{cmd}-{comp}", 420 if not thorough else 900)
         ds, n, raw = parse_race_logs(r["logs"], facts)
         cov["race_reports"] += n
         st = {}
@@ -340,8 +345,11 @@ def custom(ctx):
         if not finished and not r["fatal"] and not any(l.startswith("blocked ") for l in r["lines"]):
             if any(l.startswith("note skip") for l in r["lines"]):
                 pass
+            elif r["rc"] == 124:
+                # ran out of wall-clock time (loaded machine): not a finding; the coverage of this phase is simply missing
+                cov["notes"].append(f"{cmd} {comp}: stopped by the outer timeout before reporting (machine too slow); phase not counted")
             else:
-                broken.append(dict(what=f"{cmd} {comp} did not finish (rc={r['rc']})", detail=r["stderr"][-800:]))
+                broken.append(dict(what=f"{cmd} {comp} crashed (rc={r['rc']})", detail=r["stderr"][-800:]))
         stats_all.update(st)
         calls += sum(v for k, v in st.items() if k.startswith("race_calls") or k.startswith("lin_calls"))
         cov["stress"].append(dict(cmd=r["cmd"], rc=r["rc"], wall_s=round(r["wall"], 1), stats=st, race_reports=n, finished=finished))
